@@ -71,3 +71,23 @@ def h_epk_is_public():
 
 HARNESSES = [h_public_jwk_has_no_private_members, h_public_key_set_has_no_private_members,
              h_private_export_of_public_key_is_an_error, h_public_pem_uses_the_public_object, h_epk_is_public]
+
+
+def h_public_export_strips_private_members_carried_by_the_jwk_view():
+    """The JWK view of a key whose native object is public can still carry private member names (extra parameters,
+    or CRT members of an RSA JWK given without d): a public export strips them all the same."""
+    kn = sym_choice("case", [("RSA", "d"), ("RSA", "p"), ("RSA", "dq"), ("EC", "d"), ("OKP", "d")])
+    key = _mk(kn[0], False, {kn[1]: sym_str("v")})
+    out = call(key.as_dict, False)
+    if out.returned:
+        for n in PRIVATE_NAMES:
+            check(n not in out.value, "a public export contains no '" + n + "' member even when the key's JWK view carries one")
+    ks = call(KeySet, [key])
+    if ks.returned:
+        out2 = call(ks.value.as_dict, False)
+        if out2.returned:
+            for n in PRIVATE_NAMES:
+                check(n not in out2.value["keys"][0], "a public key-set export contains no '" + n + "' member even when a key's JWK view carries one")
+
+
+HARNESSES.append(h_public_export_strips_private_members_carried_by_the_jwk_view)
